@@ -1,3 +1,4 @@
+#![allow(unexpected_cfgs)]
 #[macro_use]
 mod error;
 mod aggregator;
@@ -11,6 +12,8 @@ mod messages;
 mod proposer;
 mod synchronizer;
 mod timer;
+#[cfg(hotstuff_verif)]
+pub mod verif;
 
 #[cfg(test)]
 #[path = "tests/common.rs"]
